@@ -47,6 +47,7 @@ class VLoop(asyncio.SelectorEventLoop):
         super().__init__(_Sel(self))
         self._clock_resolution = 1e-9
         self.after_callback = None
+        self.before_callback = None
 
     def time(self):
         return self._vt
@@ -70,8 +71,11 @@ _orig_handle_run = asyncio.events.Handle._run
 
 
 def _patched_run(self):
-    _orig_handle_run(self)
     loop = self._loop
+    pre = getattr(loop, "before_callback", None)
+    if pre is not None:
+        pre(self)
+    _orig_handle_run(self)
     hook = getattr(loop, "after_callback", None)
     if hook is not None:
         hook(self)
@@ -138,6 +142,7 @@ class SimTransport(asyncio.Transport):
         self.dropped_writes = 0
         self.write_raises = None  # exception to raise on write
         self.conn_lost_scheduled = False
+        self.made = False
 
     # -- asyncio.Transport API used by the library
     def write(self, data):
@@ -225,12 +230,13 @@ class Net:
         self.resolve_script = []   # per resolve: "ok" | exception | "hang"
         self.hangs = []
         self.on_connection_made = None
+        self.on_transport = None
 
     async def _start_connection(self, addr_infos, **kw):
         action = self.connect_script.pop(0) if self.connect_script else "ok"
         if action == "hang":
             fut = self.loop.create_future()
-            self.hangs.append(fut)
+            self.hangs.append(("tcp", fut))
             await fut
         if isinstance(action, BaseException):
             raise action
@@ -243,8 +249,11 @@ class Net:
         action = self.resolve_script.pop(0) if self.resolve_script else "ok"
         if action == "hang":
             fut = self.loop.create_future()
-            self.hangs.append(fut)
+            self.hangs.append(("resolve", fut))
             await fut
+            groups = getattr(self, "resolve_groups", 1)
+            return [AddrInfo(family=socket.AF_INET, type=socket.SOCK_STREAM, proto=socket.IPPROTO_TCP,
+                             sockaddr=IPv4Sockaddr(address=f"10.0.0.{i + 1}", port=port)) for i in range(groups)]
         if isinstance(action, BaseException):
             raise action
         return [AddrInfo(family=socket.AF_INET, type=socket.SOCK_STREAM, proto=socket.IPPROTO_TCP,
@@ -254,9 +263,11 @@ class Net:
         protocol = factory()
         tr = SimTransport(self.loop, protocol, sock)
         self.transports.append(tr)
+        if self.on_transport is not None:
+            self.on_transport(tr)
         waiter = self.loop.create_future()
         # like _SelectorSocketTransport.__init__: connection_made, (add_reader), then the waiter
-        self.loop.call_soon(protocol.connection_made, tr)
+        self.loop.call_soon(self._conn_made, tr)
         self.loop.call_soon(self._made, tr)
         self.loop.call_soon(asyncio.futures._set_result_unless_cancelled, waiter, None)
         try:
@@ -265,6 +276,10 @@ class Net:
             tr.close()
             raise
         return tr, protocol
+
+    def _conn_made(self, tr):
+        tr.made = True
+        tr.protocol.connection_made(tr)
 
     def _made(self, tr):
         if self.on_connection_made is not None:
